@@ -51,6 +51,12 @@ def fresh(shape):
     nr, ncols, dt, t0, how = shape
     if how == 'ctor':
         q = ArrayDelayQueue(np.zeros((nr, ncols)), dt, t0)
+    elif how == 'ctor-fortran':
+        q = ArrayDelayQueue(np.zeros((nr, ncols), order='F'), dt, t0)               # the same empty array in other memory layouts
+    elif how == 'ctor-transposed':
+        q = ArrayDelayQueue(np.zeros((ncols, nr)).T, dt, t0)
+    elif how == 'ctor-strided':
+        q = ArrayDelayQueue(np.zeros((nr, 2 * ncols))[:, ::2], dt, t0)
     else:
         q = ArrayDelayQueue.setup_queue(nr, ncols, dt)
         q.py_set_current_time(t0)
@@ -74,7 +80,7 @@ def add_times(ref):
     ts = [('past2', nq - 2 * dt), ('past0.3', nq - 0.3 * dt)]
     for k in range(nc):
         ts += [('slot%d' % k, nq + k * dt), ('slot%d-' % k, nq + k * dt - 0.3 * dt), ('slot%d+' % k, nq + k * dt + 0.3 * dt)]
-    ts += [('beyond1', nq + nc * dt), ('beyond3', nq + (nc + 2) * dt)]
+    ts += [('beyond0.7', nq + (nc - 1) * dt + 0.7 * dt), ('beyond1', nq + nc * dt), ('beyond3', nq + (nc + 2) * dt)]
     # far beyond the horizon: more grid steps ahead than a 32-bit index holds, and an infinite delay
     ts += [('beyond2^32', nq + 2.0 ** 32 * dt + 3 * dt), ('infinite', float('inf'))]
     return ts
@@ -272,6 +278,9 @@ def shapes(tier):
                         if tier == 'quick' and how == 'set' and t0 != 2.5:
                             continue
                         out.append((nr, ncols, dt, t0, how))
+    for nr, ncols in ((2, 3), (1, 4)):
+        for how in ('ctor-fortran', 'ctor-transposed', 'ctor-strided'):
+            out.append((nr, ncols, 0.5, 2.5, how))
     # beyond the stated family: more reactions than 2, more slots than 4 (explored to a shorter length, see run)
     for nr, ncols in (((3, 5), (2, 7), (3, 2), (4, 3)) if tier == 'quick' else ((3, 5), (2, 7), (3, 2), (4, 3), (4, 6), (3, 9), (5, 3), (6, 4))):
         for t0 in (0.0, 2.5):
@@ -285,8 +294,8 @@ def run(ctx):
     sh = shapes(ctx.tier)
     ctx.bounds = dict(history_length=L, pending_cap=cap, shapes=len(sh))
     ctx.rule = ('E3: explicit-state BFS on the real ArrayDelayQueue for every shape (1..2 reactions, 2..4 slots, dt in {0.25,0.5,1}, start '
-                'time in {0,2.5,-1}, constructed or re-timed; plus other shapes, among them more reactions than slots (3 reactions x 5 slots, 2 x 7, 3 x 2, 4 x 3; thorough also 4 x 6, 3 x 9, 5 x 3, 6 x 4) to a length 1-2 shorter); operations add(r, time) with time 2 and 0.3 slots in the past, on every '
-                'slot, 0.3 dt before/after every slot, 1 and 3 slots, 2^32 slots and infinitely far beyond the horizon; read-and-advance; copy; clear_copy; set_current_time (same, later, earlier) on the queue as it stands; '
+                'time in {0,2.5,-1}, constructed (also on Fortran-ordered, transposed and strided arrays) or re-timed; plus other shapes, among them more reactions than slots (3 reactions x 5 slots, 2 x 7, 3 x 2, 4 x 3; thorough also 4 x 6, 3 x 9, 5 x 3, 6 x 4) to a length 1-2 shorter); operations add(r, time) with time 2 and 0.3 slots in the past, on every '
+                'slot, 0.3 dt before/after every slot, 0.7, 1 and 3 slots, 2^32 slots and infinitely far beyond the horizon; read-and-advance; copy; clear_copy; set_current_time (same, later, earlier) on the queue as it stands; '
                 'binomial_partition with every coin sequence (continuing on either part); separately, partitions of slots holding 50..400 (thorough 1000) occurrences under four coin patterns. After every transition the real queue is '
                 'drained and compared slot by slot (content and slot times) with the reference. States are merged on (pending counts '
                 'per relative slot and reaction, ring position); every shape counts as one non-trivial case.')
